@@ -1,5 +1,6 @@
 import PlaybackProofs.RecorderSent
 import PlaybackProofs.OutKey
+import PlaybackProofs.OutDiff
 /-!
 # C03 — Captured outputs are exactly what the executing code sent
 
@@ -102,7 +103,34 @@ theorem C03_operation_output (s : St) (p : Prog) (v : Val) (h : (exec s p).2 = .
   subst h
   rfl
 
+/-- Under the key (alias, n) of the outputs a run produces lies what its n-th call on that alias sent (nothing when there were
+fewer calls or that call's capture failed): the numbering is per alias, starts at 1 and counts calls. -/
+theorem C03_entry_is_nth_send (p : Prog) (a : String) (n : Nat) :
+    getD (planOutputs [] p) (.outArgs a (n + 1)) = ((proj a (sendsOf p))[n]?).bind id := by
+  rw [planOutputs_eq_numberK, getD_numberK]; simp [cnt]
+
+/-- "Any change in what replayed code sends appears as a difference at exactly the affected entries and nowhere else": the
+outputs of two runs (any two programs - the recorded one and its edit) differ under a key iff the key is an output key
+(alias, n) and the n-th calls on that alias sent different things (a value changed, or one run made fewer calls). A dropped,
+added or reordered call on one alias therefore never shows under another alias's keys. -/
+theorem C03_difference_exact (p p' : Prog) (k : Key) :
+    getD (planOutputs [] p) k ≠ getD (planOutputs [] p') k ↔
+      ∃ a n, k = .outArgs a (n + 1) ∧
+        ((proj a (sendsOf p))[n]?).bind id ≠ ((proj a (sendsOf p'))[n]?).bind id := by
+  rw [planOutputs_eq_numberK, planOutputs_eq_numberK]; exact numberK_difference_exact _ _ k
+
+/-- One changed value, everything else as recorded: the two runs differ under exactly one key, that call's alias with its
+per-alias ordinal (the number of earlier calls on the same alias plus one). -/
+theorem C03_single_changed_value (p p' : Prog) (pre post : List (String × Option RVal)) (a : String) (v v' : RVal)
+    (hp : sendsOf p = pre ++ (a, some v) :: post) (hp' : sendsOf p' = pre ++ (a, some v') :: post) (hv : v ≠ v') (k : Key) :
+    getD (planOutputs [] p) k ≠ getD (planOutputs [] p') k ↔ k = .outArgs a ((proj a pre).length + 1) := by
+  rw [planOutputs_eq_numberK, planOutputs_eq_numberK, hp, hp']; exact numberK_single_edit pre post a v v' hv k
+
 /-! Non-vacuity -/
+example : sendsOf (.callOut { name := "g", alias := "g", prepare := none, failOnMissing := true, default := .atom "" }
+    ⟨[.atom "1"], []⟩ (.done (.out (.ret (.atom "r")))) (fun _ => .done (.out (.ret (.atom "x")))))
+    = [] ++ ("g", some (.sent [.atom "1"] [])) :: [] := by
+  simp [sendsOf, outValue, bodyEnd, runPlain]
 example : planOutputs [] (.callOut { name := "g", alias := "g", prepare := none, failOnMissing := true, default := .atom "" }
     ⟨[.atom "1"], []⟩ (.done (.out (.ret (.atom "r"))))
     (fun _ => .callOut { name := "g", alias := "g", prepare := none, failOnMissing := true, default := .atom "" }
